@@ -120,6 +120,25 @@ var AttrKinds = []struct {
 	{"script-template-handler", func(g *Gen, i int) Attr {
 		return ScriptAttr{Name: []string{"onclick", "onmouseover", "onfocus"}[i%3], ID: g.ID("s")}
 	}},
+	// class expressions: the container forms, names that collide under some valuations (first occurrence keeps
+	// the place, the last setting decides), and class expressions inside conditional attributes
+	{"class-strings", func(g *Gen, i int) Attr {
+		return ClassExprAttr{Items: []ClassItem{{Kind: "const", Name: "k1"}, {Kind: "dyn", ID: g.ID("k")}}}
+	}},
+	{"class-mixed", func(g *Gen, i int) Attr {
+		return ClassExprAttr{Items: []ClassItem{{Kind: "const", Name: "k0"}, {Kind: "kv", Name: "k1", Cond: g.ID("b")}, {Kind: "dyn", ID: g.ID("k")},
+			{Kind: "map", Pairs: [][2]string{{"k2", g.ID("b")}, {"k0", g.ID("b")}}}, {Kind: "slice", Name: "k1", ID: g.ID("k")}}}
+	}},
+	{"class-switched-off", func(g *Gen, i int) Attr {
+		return ClassExprAttr{Items: []ClassItem{{Kind: "dyn", ID: g.ID("k")}, {Kind: "const", Name: "k2"}, {Kind: "kvdyn", ID: g.ID("k"), Cond: g.ID("b")}}}
+	}},
+	{"cond-class", func(g *Gen, i int) Attr {
+		return CondAttr{Cond: g.ID("b"), Then: []Attr{ClassExprAttr{Items: []ClassItem{{Kind: "dyn", ID: g.ID("k")}}}}, HasElse: true,
+			Else: []Attr{ClassExprAttr{Items: []ClassItem{{Kind: "const", Name: "k0"}, {Kind: "dyn", ID: g.ID("k")}}}}}
+	}},
+	{"cond-class-css", func(g *Gen, i int) Attr {
+		return CondAttr{Cond: g.ID("b"), Then: []Attr{ClassExprAttr{Items: []ClassItem{{Kind: "css"}, {Kind: "kv", Name: "k1", Cond: g.ID("b")}}}}}
+	}},
 	{"cond-else", func(g *Gen, i int) Attr {
 		return CondAttr{Cond: g.ID("b"), Then: []Attr{ConstAttr{Name: fmt.Sprintf("data-t%d", i), Raw: "then"}}, HasElse: true, Else: []Attr{BoolConstAttr{Name: fmt.Sprintf("data-f%d", i)}, ExprAttr{Name: fmt.Sprintf("data-g%d", i), ID: g.ID("s")}}}
 	}},
